@@ -368,31 +368,52 @@ Section Calls.
     | _, _ => false
     end.
 
+  (* instances of OptGraph: OptGraph itself, its subclasses, the domain class of
+     DirectAdapter(MyGraph, ..) *)
+  Definition optlike (k : akind) (c : gcl) : bool :=
+    match c with
+    | KDom => match k with ADirectSub => true | _ => false end
+    | _ => true
+    end.
+
   (* isinstance(item, self.opt_graph_class) *)
   Definition is_opt_inst (k : akind) (v : val) : bool :=
-    match v with
-    | VGraph KOpt _ => true
-    | VGraph KSub _ => true
-    | VGraph KDom _ => match k with ADirectSub => true | _ => false end
-    | _ => false
-    end.
+    match v with VGraph c _ => optlike k c | _ => false end.
 
   Definition is_ind (v : val) : bool := match v with VInd _ _ _ => true | _ => false end.
 
   Definition dom_tag (k : akind) : gcl := match k with ADirectDefault => KOpt | _ => KDom end.
 
+  (* graph classes self._restore / self._adapt can process without an AttributeError: the
+     NetworkX adapters read adaptee.nodes.items() resp. opt_graph.nodes / node.uid, the direct
+     adapter reads .nodes after rewriting __class__ *)
+  Definition can_restore (k : akind) (c : gcl) : bool :=
+    match k with AIdentity => true | _ => optlike k c end.
+  Definition can_adapt (k : akind) (c : gcl) : bool :=
+    match k with
+    | AIdentity => true
+    | ANx | ADumb => match c with KDom => true | _ => false end
+    | _ => optlike k c
+    end.
+
   (* self._adapt(x) on an arbitrary object *)
   Definition adapt1 (k : akind) (v : val) : res val :=
     match k with
     | AIdentity => Ok v
-    | _ => match v with VGraph _ g => Ok (VGraph KOpt (cvA g)) | _ => Raise end
+    | _ => match v with
+           | VGraph c g => if can_adapt k c then Ok (VGraph KOpt (cvA g)) else Raise
+           | _ => Raise
+           end
     end.
 
   (* self._restore(x, metadata) on an arbitrary object *)
   Definition restore1 (k : akind) (v : val) (m : option M) : res val :=
     match k with
     | AIdentity => Ok v
-    | _ => match v with VGraph _ g => Ok (VGraph (dom_tag k) (cvR g m)) | _ => Raise end
+    | _ => match v with
+           | VGraph c g => if can_restore k c then Ok (VGraph (dom_tag k) (cvR g m)) else Raise
+           | _ => Raise
+           end
     end.
 
   (* ind.graph, ind.metadata of a sequence element (AttributeError on anything else) *)
@@ -486,16 +507,33 @@ Section Calls.
   Definition result_total (f : val -> val) (r : val) : val :=
     match r with VNone => VNone | VTuple l => VTuple (map f l) | _ => f r end.
 
-  (* homogeneous sequences (the documented argument shapes): a sequence led by an individual
-     holds individuals only, one led by a graph holds graphs only *)
-  Definition homog (v : val) : bool :=
-    match seq_items v with
-    | Some (h :: t) =>
-        if is_ind h then forallb is_ind t
-        else if is_graph h then forallb is_graph t
+  (* the documented argument shapes: a sequence led by an individual holds individuals only,
+     one led by a graph holds graphs only, and every graph that will be converted is of a
+     class the adapter can read *)
+  Definition elem_restorable (k : akind) (v : val) : bool :=
+    match v with VGraph c _ => can_restore k c | VInd c _ _ => can_restore k c | _ => false end.
+
+  Definition restorable (k : akind) (v : val) : bool :=
+    match v with
+    | VInd c _ _ => can_restore k c
+    | VSeq (h :: t) | VTuple (h :: t) =>
+        if is_ind h then forallb (fun x => is_ind x && elem_restorable k x) (h :: t)
+        else if is_opt_inst k h then forallb (fun x => is_graph x && elem_restorable k x) (h :: t)
         else true
     | _ => true
     end.
+
+  Definition adaptable (k : akind) (v : val) : bool :=
+    match v with
+    | VSeq (h :: t) | VTuple (h :: t) =>
+        if is_dom_exact k h
+        then forallb (fun x => match x with VGraph c _ => can_adapt k c | _ => false end) (h :: t)
+        else true
+    | _ => true
+    end.
+
+  Definition result_ok (p : val -> bool) (r : val) : bool :=
+    match r with VTuple l => forallb p l | _ => p r end.
 
   (* decidable equality of observed values *)
   Variable g_eqb : G -> G -> bool.
@@ -826,13 +864,13 @@ Definition agree_call (c : call_obs) : bool :=
 (* the property on the observed call, through the total element-wise specification (only for
    the documented, homogeneous shapes): the function received the converted arguments, the
    wrapper returned the converted result *)
-Definition homog_result (r : tval) : bool :=
-  homog r && match r with VTuple l => forallb homog l | _ => true end.
-
 Definition holds_call (c : call_obs) : bool :=
-  let sa := if c_adapting c then @restore_total nat nat tidR (c_kind c) else @adapt_total nat nat tid (c_kind c) in
-  let sr := if c_adapting c then @adapt_total nat nat tid (c_kind c) else @restore_total nat nat tidR (c_kind c) in
-  if forallb homog (c_args c) && forallb (fun kv => homog (snd kv)) (c_kwargs c) && homog_result (c_raw c)
+  let k := c_kind c in
+  let sa := if c_adapting c then @restore_total nat nat tidR k else @adapt_total nat nat tid k in
+  let sr := if c_adapting c then @adapt_total nat nat tid k else @restore_total nat nat tidR k in
+  let pa := if c_adapting c then @restorable nat nat k else @adaptable nat nat k in
+  let pr := if c_adapting c then @adaptable nat nat k else @restorable nat nat k in
+  if forallb pa (c_args c) && forallb (fun kv => pa (snd kv)) (c_kwargs c) && result_ok pr (c_raw c)
   then
     inner_eqb (Ok (map sa (c_args c), map (fun kv => (fst kv, sa (snd kv))) (c_kwargs c))) (c_inner c) &&
     res_eqb t_val_eqb (Ok (result_total sr (c_raw c))) (c_out c) &&
